@@ -28,8 +28,7 @@ def snapshot(state):
     return {"position": pos, "lastPosition": last, "lastRetraction": lr, "excluding": state.excluding,
             "enabled": state.isExclusionEnabled(), "feedRate": state.feedRate,
             "feedRateUnitMultiplier": state.feedRateUnitMultiplier,
-            "pending": [(k, (dict(v) if isinstance(v, dict) else v)) for k, v in state.pendingCommands.items()],
-            "numCommands": state.numCommands}
+            "pending": [(k, (dict(v) if isinstance(v, dict) else v)) for k, v in state.pendingCommands.items()]}
 
 
 def same_data(a, b):
